@@ -256,12 +256,19 @@ def xfer_op(c: dict, **over) -> dict:
     return op
 
 
-def stale_cases(rng: random.Random, limit: int) -> list[dict]:
+def stale_cases(rng: random.Random, limit: int, closed_only: bool = False) -> list[dict]:
     """TLC-generated histories around a stale remote index: indexed push, external deletion, indexed query / push, retry."""
     cases = []
-    for c in _sample(tlc_generate("stale")["stale"], limit, rng):
+    lists = {"d1": {"f1", "f2"}, "d2": {"f2", "f3"}}
+    gen = tlc_generate("stale")["stale"]
+    if closed_only:
+        # C04 quantifies over closed requests: a directory listed with its files, or expanded by the transfer
+        gen = [c for c in gen if c["kind"] == "transfer" and
+               (not c["shallow"] or all(lists[d] <= set(c["ids"]) for d in c["ids"] if d in lists))]
+    for c in _sample(gen, limit, rng):
         first = {"op": "Transfer", "src": "cache", "dst": "remote", "req": c["r1"], "shallow": c["sh1"], "idx": True, "F": []}
-        ops = [first] + [{"op": "ExtDelete", "s": "remote", "o": o} for o in c["E"]]
+        # directory objects go first: a directory deleted together with (some of) its files leaves the remote closed
+        ops = [first] + [{"op": "ExtDelete", "s": "remote", "o": o} for o in sorted(c["E"])]
         if c["kind"] == "status":
             ops.append({"op": "Status", "s": "remote", "ids": c["ids"], "shallow": c["shallow"], "idx": True})
             ops.append(first)
@@ -494,6 +501,7 @@ def check_C04(run: core.Run, replay=None):
         gen = tlc_generate("xfer")
         cases = transfer_cases(gen, rng, quick)
         cases += sim_cases("ObjectStore_sim_xfer.cfg", 150 if quick else 1500, 24, run.seed + 1)
+        cases += stale_cases(rng, 400 if quick else 10**9, closed_only=True)
         run.extra["generated_cases"] = {k: len(v) for k, v in gen.items()}
     traces = execute(cases, run.seed)
     return _finish(run, traces,
